@@ -92,9 +92,21 @@ func (ss *session) eval(src string, maxDur time.Duration) (res runOut) {
 }
 
 // toVal converts a grol object into a reference-evaluator value by type and structure.
-func toVal(o object.Object) gt.Val { return toValD(o, 0) }
+func toVal(o object.Object) gt.Val {
+	budget := 3_000_000
+	return toValD(o, 0, &budget)
+}
 
-func toValD(o object.Object, depth int) gt.Val {
+// tooLarge stands for (the rest of) a value whose expansion as a tree would not end in reasonable time: containers
+// that share sub-containers (v = [v, v] repeated) are small in memory and exponential as a tree. Two such values
+// compare equal up to the point where the budget ran out, which is all the monitors can afford to look at.
+const tooLarge = "<value too large to expand>"
+
+func toValD(o object.Object, depth int, budget *int) gt.Val {
+	*budget--
+	if *budget < 0 {
+		return tooLarge
+	}
 	if depth > 20000 { // a container that (through in-place aliasing) contains itself; legitimate values nest far less within the budgets
 		return "<nesting deeper than 20000: cyclic container?>"
 	}
@@ -120,7 +132,7 @@ func toValD(o object.Object, depth int) gt.Val {
 		els := object.Elements(o)
 		out := make([]gt.Val, len(els))
 		for i, e := range els {
-			out[i] = toValD(e, depth+1)
+			out[i] = toValD(e, depth+1, budget)
 		}
 		return &gt.Arr{E: out}
 	case object.MAP:
@@ -129,7 +141,7 @@ func toValD(o object.Object, depth int) gt.Val {
 		out := make([]gt.KV, 0, len(keys))
 		for _, k := range keys {
 			v, _ := m.Get(k)
-			out = append(out, gt.KV{K: toValD(k, depth+1), V: toValD(v, depth+1)})
+			out = append(out, gt.KV{K: toValD(k, depth+1, budget), V: toValD(v, depth+1, budget)})
 		}
 		return &gt.Map{P: out}
 	}
